@@ -597,7 +597,7 @@ class Alphaindex(ObsFcstBased):
         if denom == 0:
             return np.nan
         else:
-            return 1 - num / denom
+            return num / denom
 
     def label(self, variable):
         return self.name
